@@ -216,7 +216,11 @@ struct Probe {
     std::string stderr_tail;
 };
 
-static Probe probe(const Plan& plan, const std::string& prop, bool want_stderr = false) {
+// `prelude`: worlds that the same process went through before (each one
+// registered, updated, used and completely unregistered again)
+static Probe probe(
+    const Plan& plan, const std::string& prop, bool want_stderr = false,
+    const std::vector<Plan>* prelude = nullptr) {
     Probe pr;
     int fds[2], efds[2];
     if (pipe(fds) != 0 || pipe(efds) != 0) {
@@ -236,6 +240,11 @@ static Probe probe(const Plan& plan, const std::string& prop, bool want_stderr =
         dup2(efds[1], 2);
         if (prop == "C14" && plan.diff == "solo")
             g_zygote.start(); // this child has not executed any plan yet
+        if (prelude)
+            for (auto& earlier : *prelude) {
+                cpu_alarm(40);
+                run_plan(earlier, opts_for(prop));
+            }
         cpu_alarm(40);
         RunResult r = run_plan(plan, opts_for(prop));
         J o = J::obj();
@@ -610,6 +619,84 @@ static J handle_failure(
     return out;
 }
 
+// a run that fails in its batch but not alone: replay the batch up to it in a
+// fresh process; if that fails the same way twice, the earlier worlds are part
+// of the history. They are thinned out (ddmin over whole worlds) and written
+// into the replay file as its prelude.
+static J handle_sequence_failure(
+    const std::string& prop, int tier, std::uint64_t base, long batch_start, long bad) {
+    J out = J::obj();
+    if (bad - batch_start > 20000)
+        return out;
+    std::vector<Plan> pre;
+    for (long k = batch_start; k < bad; ++k)
+        pre.push_back(generate(prop, run_seed(base, prop, k), tier));
+    Plan plan = generate(prop, run_seed(base, prop, bad), tier);
+    Probe first = probe(plan, prop, false, &pre);
+    if (first.status != RS_VIOLATION)
+        return out;
+    Probe again = probe(plan, prop, false, &pre);
+    out.set("index", J((long long)bad));
+    out.set("seed", J((unsigned long long)plan.seed));
+    out.set("key", first.key);
+    out.set("profile", plan.profile);
+    if (again.status != RS_VIOLATION || again.key != first.key ||
+        (!again.crashed && again.evhash != first.evhash)) {
+        out.set("gate", "nondeterministic");
+        out.set("replay", "");
+        return out;
+    }
+    double stop = now_s() + 240;
+    int probes = 0;
+    std::size_t before = pre.size();
+    for (std::size_t chunk = std::max<std::size_t>(1, pre.size() / 2); chunk >= 1;
+         chunk /= 2) {
+        for (std::size_t i = 0; i + chunk <= pre.size() && now_s() < stop;) {
+            std::vector<Plan> q = pre;
+            q.erase(q.begin() + (long)i, q.begin() + (long)(i + chunk));
+            Probe p = probe(plan, prop, false, &q);
+            ++probes;
+            if (p.status == RS_VIOLATION && p.key == first.key)
+                pre = q;
+            else
+                i += chunk;
+        }
+        if (chunk == 1)
+            break;
+    }
+    Probe fin = probe(plan, prop, true, &pre);
+    if (fin.status != RS_VIOLATION || fin.key != first.key)
+        return J::obj();
+    mkdir(g_outdir.c_str(), 0755);
+    char name[256];
+    snprintf(
+        name, sizeof name, "%s/%s-%016llx.json", g_outdir.c_str(), prop.c_str(),
+        (unsigned long long)plan.seed);
+    J file = plan_to_json(plan);
+    J pj = J::arr();
+    for (auto& q : pre)
+        pj.push(plan_to_json(q));
+    file.set("prelude", pj);
+    J viol = J::obj();
+    viol.set("property", prop);
+    viol.set("key", first.key);
+    viol.set("detail", fin.detail + " (only after " + std::to_string(pre.size()) +
+                 " earlier world(s) in the same process: see prelude)");
+    viol.set("diag", fin.diag);
+    if (!fin.stderr_tail.empty())
+        viol.set("stderr", fin.stderr_tail.substr(0, 6000));
+    file.set("violation", viol);
+    write_file(name, file.str() + "\n");
+    out.set("detail", viol.gets("detail", ""));
+    out.set("diag", fin.diag);
+    out.set("prelude_before", J((unsigned long long)before));
+    out.set("prelude_after", J((unsigned long long)pre.size()));
+    out.set("minimise_runs", probes);
+    out.set("replay", std::string(name));
+    out.set("gate", "ok");
+    return out;
+}
+
 // child: run seeds [from, to), streaming one line per run
 static void child_loop(
     const std::string& prop, int tier, std::uint64_t base, long from, long to,
@@ -727,6 +814,7 @@ static int cmd_run(
             return 2;
         }
         fflush(stdout);
+        long batch_start = i;
         pid_t pid = fork();
         if (pid == 0) {
             close(fds[0]);
@@ -849,11 +937,17 @@ static int cmd_run(
                 J f = handle_failure(plan, prop, bad, first);
                 printf("V %s\n", f.str().c_str());
                 ++failures;
+            } else if (J f = handle_sequence_failure(prop, tier, base, batch_start, bad);
+                       f.has("replay")) {
+                // the run fails only after the worlds that the same process
+                // went through before it: a longer history, found, gated and
+                // minimised as such
+                printf("V %s\n", f.str().c_str());
+                ++failures;
             } else {
-                // the batch died but the run alone does not fail: something
-                // accumulated over several runs of that process. Never a
-                // violation by itself; go on in a fresh process (a run that
-                // fails alone will still be found) and report it at the end
+                // the batch died but neither the run alone nor the replayed
+                // batch fails. Never a violation by itself; go on in a fresh
+                // process and report it at the end
                 printf("X %ld unreproducible failure in batch\n", bad);
                 fflush(stdout);
                 if (++unreproducible > 20)
@@ -914,6 +1008,21 @@ static int cmd_replay(const std::string& path, bool verbose) {
     std::string want;
     if (j.has("violation"))
         want = j.at("violation").gets("key", "");
+    if (j.has("prelude")) {
+        std::vector<Plan> pre;
+        for (auto& q : j.at("prelude").a)
+            pre.push_back(plan_from_json(q));
+        Probe pr = probe(plan, prop, true, &pre);
+        printf(
+            "replay: %s %s (after %zu earlier worlds)\n",
+            pr.status == RS_VIOLATION ? pr.key.c_str() : "ok", pr.detail.c_str(),
+            pre.size());
+        if (verbose && !pr.stderr_tail.empty())
+            printf("%s\n", pr.stderr_tail.c_str());
+        if (pr.status == RS_VIOLATION && (want.empty() || pr.key == want))
+            return 1;
+        return pr.status == RS_INVALID ? 3 : 0;
+    }
     if (want.find("/crash/") != std::string::npos) {
         Probe pr = probe(plan, prop, true);
         printf(
